@@ -36,7 +36,7 @@ def _section(kind: str, name: str):
     return GroupedSection(name=name, type="group", label="L")
 
 
-def build_layout(ck: str, rk: str, tk: str, names):
+def build_layout(ck: str, rk: str, tk: str, names, decoy=None):
     """Real element tree: data / C... / (R... / qr | T... / qt).  names: list of str in the
     order C sections, R sections, T sections, qr, qt.  Returns (survey, qr, qt, info)."""
     survey = Survey(name="data", id_string="x", title="x")
@@ -72,6 +72,12 @@ def build_layout(ck: str, rk: str, tk: str, names):
     qt = InputQuestion(name=nqt, type="text", label="L")
     rcur.add_child(qr)
     tcur.add_child(qt)
+    if decoy is not None:
+        # an unrelated, never-referenced question in its own root-level group; its name may
+        # coincide with a section name elsewhere (legal: only sibling/section names must differ)
+        dg = GroupedSection(name="zz9", type="group", label="L")
+        survey.add_child(dg)
+        dg.add_child(InputQuestion(name=decoy, type="text", label="L"))
     shims.s3_prefill_xpath(survey)
     if survey._xpath is None:
         survey._setup_xpath_dictionary()
@@ -101,8 +107,8 @@ def must_be_relative(tkinds, ncommon) -> bool:
     return innermost >= 0 and innermost < ncommon
 
 
-def check_layout(ck, rk, tk, names) -> bool:
-    survey, qr, qt, (cpath, rpath, tpath, rkinds, tkinds, ncommon) = build_layout(ck, rk, tk, names)
+def check_layout(ck, rk, tk, names, decoy=None) -> bool:
+    survey, qr, qt, (cpath, rpath, tpath, rkinds, tkinds, ncommon) = build_layout(ck, rk, tk, names, decoy)
     out = survey.insert_xpaths("${" + names[-1] + "} > 1", qr)
     if "${" in out:
         return False
@@ -136,7 +142,7 @@ def _name_pre(i: int, ln: int):
     return [f"pre: {first} and (97 <= n{i}b <= 122 or 65 <= n{i}b <= 90 or n{i}b == 95 or 48 <= n{i}b <= 57)"]
 
 
-def _gen_layout(ck, rk, tk, lens, tiers, timeout, weight):
+def _gen_layout(ck, rk, tk, lens, tiers, timeout, weight, decoy=False):
     nn = len(ck) + len(rk) + len(tk) + 2
     params, pres, exprs = [], [], []
     for i in range(nn):
@@ -155,10 +161,19 @@ def _gen_layout(ck, rk, tk, lens, tiers, timeout, weight):
                     pres.append(f"pre: n{i}a != n{j}a and n{i}a != n{j}a + 32 and n{i}a + 32 != n{j}a")
                 else:
                     pres.append(f"pre: not (n{i}a == n{j}a and n{i}b == n{j}b) and not (n{i}a == n{j}a + 32 and n{i}b == n{j}b) and not (n{i}a + 32 == n{j}a and n{i}b == n{j}b)")
+    dexpr = "None"
+    if decoy:
+        params += ["da: int", "db: int"]
+        pres.append("pre: (97 <= da <= 122 or 65 <= da <= 90 or da == 95) and (97 <= db <= 122 or 65 <= db <= 90 or db == 95 or 48 <= db <= 57)")
+        # the decoy differs from the two question names (the reference must stay unambiguous)
+        for i in (nn - 2, nn - 1):
+            if lens[i] == 2:
+                pres.append(f"pre: not (n{i}a == da and n{i}b == db)")
+        dexpr = "S(da, db)"
     pres.append("post: _ == True")
-    tag = f"{ck or '-'}.{rk or '-'}.{tk or '-'}.L{''.join(map(str, lens))}"
-    name = "c03_layout_" + tag.replace("-", "0").replace(".", "_")
-    body = f"    return check_layout({ck!r}, {rk!r}, {tk!r}, [{', '.join(exprs)}])"
+    tag = f"{ck or '-'}.{rk or '-'}.{tk or '-'}.L{''.join(map(str, lens))}" + ("+decoy" if decoy else "")
+    name = "c03_layout_" + tag.replace("-", "0").replace(".", "_").replace("+", "_")
+    body = f"    return check_layout({ck!r}, {rk!r}, {tk!r}, [{', '.join(exprs)}], {dexpr})"
     fn = _srcfn(name, params, pres, body, globals())
     fn.__module__ = __name__
     ob(
@@ -168,7 +183,7 @@ def _gen_layout(ck, rk, tk, lens, tiers, timeout, weight):
         timeout=timeout,
         kernel=K,
         shims=("S1", "S2", "S3"),
-        symbolic=f"all {nn} element names (lengths {lens}) over [A-Za-z_][A-Za-z0-9_], pairwise distinct",
+        symbolic=f"all {nn} element names (lengths {lens}) over [A-Za-z_][A-Za-z0-9_], pairwise distinct" + ("; plus the 2-character name of an unrelated question in a separate group, which may coincide with any section name" if decoy else ""),
         bounds=f"layout skeleton: common chain '{ck}', referrer chain '{rk}', target chain '{tk}' (g=group, r=repeat); expression '${{T}} > 1'",
         weight=weight,
     )(fn)
@@ -177,10 +192,234 @@ def _gen_layout(ck, rk, tk, lens, tiers, timeout, weight):
 for _ck, _rk, _tk in skeletons(3):
     _tot = len(_ck) + len(_rk) + len(_tk)
     _nn = _tot + 2
-    if _tot <= 2:
-        _gen_layout(_ck, _rk, _tk, [2] * _nn, ("quick", "thorough"), 300 + 200 * _tot, 40 + 60 * _tot)
+    if _tot == 0:
+        _gen_layout(_ck, _rk, _tk, [2] * _nn, ("quick", "thorough"), 300, 40)
+    elif _tot <= 2:
+        _gen_layout(_ck, _rk, _tk, [2] * _nn, ("quick", "thorough"), 400 + 300 * _tot, 60 + 90 * _tot, decoy=True)
     else:
         _gen_layout(_ck, _rk, _tk, [1] * _nn, ("thorough",), 900, 300)
     if 1 <= _tot <= 2:
         # prefix-confusion pattern: sections 1 character, questions 2 characters
         _gen_layout(_ck, _rk, _tk, [1] * _tot + [2, 2], ("thorough",), 600, 100)
+
+
+# ---- d: unknown / ambiguous references ------------------------------------------------------
+from harness.common import build_survey, child_elements, elements, text_of  # noqa: E402
+from vf.registry import specialise  # noqa: E402
+
+
+def c03_ambiguous(k: int, ref_first: bool, in_label: bool, l0: int) -> bool:
+    """
+    vpre: 0 <= k <= 5
+    vpre: 33 <= l0 <= 126 and l0 != 36
+    vpost: _ == True
+    """
+    lab = S(l0, 65)
+    rows = []
+    refrow = {"type": "text", "name": "r", "label": lab + (" ${a}" if in_label else "")}
+    if not in_label:
+        refrow["relevant"] = "${a} = 1"
+    if ref_first:
+        rows.append(refrow)
+    for i in range(k):
+        rows += [{"type": "begin group", "name": f"g{i}", "label": "G"}, {"type": "text", "name": "a", "label": lab}, {"type": "end group"}]
+    if not ref_first:
+        rows.append(refrow)
+    try:
+        survey, _w, _js = build_survey({"survey": rows}, prefill=False)
+        root = survey.xml()
+    except PyXFormError as e:
+        return k != 1 and "a" in str(e) and "${a}" in str(e)
+    if k != 1:
+        return False
+    b = [x for x in elements(root, "bind") if x.getAttribute("nodeset") == "/data/r"]
+    if in_label:
+        outs = elements(root, "output")
+        return len(outs) == 1 and outs[0].getAttribute("value").strip() == "/data/g0/a"
+    return len(b) == 1 and b[0].getAttribute("relevant") == " /data/g0/a  = 1"
+
+
+specialise(
+    "C03",
+    "d.unknown-ambiguous",
+    c03_ambiguous,
+    {"in_label": [False, True]},
+    timeout=300,
+    kernel=K + ("pyxform.survey:Survey._setup_xpath_dictionary", "pyxform.survey:Survey.insert_output_values"),
+    shims=("S1", "S2", "S4"),
+    symbolic="number k (0..5) of groups that each define a question named 'a', position of the referring row (boolean), a symbolic label character",
+    bounds="reference ${a} in a relevant cell / in a label (fixed per instance); the real _setup_xpath_dictionary runs (names concrete)",
+    weight=60,
+)
+
+
+# ---- b: consumers of references ----------------------------------------------------------------
+CELLS_B = ["relevant", "constraint", "calculation", "required", "read_only", "label", "hint", "default", "choice_filter", "repeat_count", "last-saved", "constraint_message"]
+
+
+def _kinds(bits: int, n: int) -> str:
+    return "".join("r" if (bits >> i) & 1 else "g" for i in range(n))
+
+
+def c03_cells(cell: int, nc: int, nr: int, nt: int, cb: int, rb: int, tb: int, x0: int) -> bool:
+    """
+    vpre: 0 <= cb <= 3 and 0 <= rb <= 3 and 0 <= tb <= 3
+    vpre: 48 <= x0 <= 57
+    vpost: _ == True
+    """
+    ck, rk, tk = _kinds(cb, nc), _kinds(rb, nr), _kinds(tb, nt)
+    X = S(x0)
+    kind = CELLS_B[cell]
+    rows = []
+    path = ["data"]
+    for i, k in enumerate(ck):
+        rows.append({"type": "begin " + ("repeat" if k == "r" else "group"), "name": f"c{i}", "label": "C"})
+        path.append(f"c{i}")
+    # target branch first
+    tpath = list(path)
+    for i, k in enumerate(tk):
+        rows.append({"type": "begin " + ("repeat" if k == "r" else "group"), "name": f"t{i}", "label": "T"})
+        tpath.append(f"t{i}")
+    rows.append({"type": "integer", "name": "tq", "label": "TQ"})
+    tpath.append("tq")
+    for k in reversed(tk):
+        rows.append({"type": "end " + ("repeat" if k == "r" else "group")})
+    rpath = list(path)
+    for i, k in enumerate(rk):
+        rows.append({"type": "begin " + ("repeat" if k == "r" else "group"), "name": f"r{i}", "label": "R"})
+        rpath.append(f"r{i}")
+    q = {"type": "text", "name": "rq", "label": "RQ"}
+    expr = "${tq} > " + X
+    if kind in ("relevant", "constraint", "calculation", "required", "read_only"):
+        q[kind] = expr
+    elif kind == "label":
+        q["label"] = "v" + X + " ${tq} w"
+    elif kind == "hint":
+        q["hint"] = "v" + X + " ${tq} w"
+    elif kind == "default":
+        q["default"] = "${tq} + " + X
+    elif kind == "choice_filter":
+        q = {"type": "select_one l1", "name": "rq", "label": "RQ", "choice_filter": "f = ${tq} + " + X}
+    elif kind == "repeat_count":
+        q = None
+        rows.append({"type": "begin repeat", "name": "rq", "label": "RQ", "repeat_count": "${tq}"})
+        rows.append({"type": "text", "name": "inner", "label": "I" + X})
+        rows.append({"type": "end repeat"})
+    elif kind == "last-saved":
+        q["default"] = "${last-saved#tq}"
+        q["label"] = "RQ" + X
+    elif kind == "constraint_message":
+        q["constraint"] = ". != 1"
+        q["constraint_message"] = "m" + X + " ${tq}"
+    if q is not None:
+        rows.append(q)
+    rpath.append("rq")
+    for k in reversed(rk):
+        rows.append({"type": "end " + ("repeat" if k == "r" else "group")})
+    for k in reversed(ck):
+        rows.append({"type": "end " + ("repeat" if k == "r" else "group")})
+    wb = {"survey": rows, "choices": [{"list_name": "l1", "name": "a", "label": "A", "f": "1"}]}
+    survey, _w, _js = build_survey(wb, prefill=False)
+    root = survey.xml()
+    absolute, rel = reference_answers(rpath, tpath, nc)
+    tkinds = list(ck) + list(tk)
+    need_rel = must_be_relative(tkinds, nc)
+    RQ = "/" + "/".join(rpath)
+
+    def classify(tok: str, current: bool = False):
+        """-> 'abs' | 'rel' | None for a substituted reference token"""
+        t = tok.strip()
+        if t == absolute:
+            return "abs"
+        pre = "current()/" if current else ""
+        for r in rel:
+            if t == pre + r:
+                return "rel"
+        return None
+
+    def ok(tok: str, current: bool = False):
+        c = classify(tok, current)
+        if c is None:
+            return False
+        return not (need_rel and c != "rel")
+
+    xml_text_refs = [e.getAttribute(a) for e in elements(root) for a in e.attributes.keys()]
+    for v in xml_text_refs:
+        if "${" in v:
+            return False
+    bind = [x for x in elements(root, "bind") if x.getAttribute("nodeset") == RQ]
+    attr = {"relevant": "relevant", "constraint": "constraint", "calculation": "calculate", "required": "required", "read_only": "readonly"}
+    if kind in attr:
+        v = bind[0].getAttribute(attr[kind])
+        if not v.endswith(" > " + X):
+            return False
+        return ok(v[: -len(" > " + X)])
+    if kind in ("label", "hint"):
+        ctl = [e for e in elements(root, "input") if e.getAttribute("ref") == RQ][0]
+        el = [c for c in child_elements(ctl) if c.tagName == kind][0]
+        outs = [c for c in child_elements(el) if c.tagName == "output"]
+        if len(outs) != 1 or not ok(outs[0].getAttribute("value")):
+            return False
+        return text_of(el).replace(" ", "") == "v" + X + "w"
+    if kind == "default":
+        svs = [e for e in elements(root, "setvalue") if e.getAttribute("ref") == RQ]
+        if len(svs) != 1:
+            return False
+        v = svs[0].getAttribute("value")
+        return v.endswith(" + " + X) and ok(v[: -len(" + " + X)])
+    if kind == "choice_filter":
+        its = elements(root, "itemset")
+        ns = its[0].getAttribute("nodeset")
+        head = "instance('l1')/root/item[f = "
+        if not (ns.startswith(head) and ns.endswith(" + " + X + "]")):
+            return False
+        return ok(ns[len(head) : -len(" + " + X + "]")], current=True)
+    if kind == "repeat_count":
+        rp = [e for e in elements(root, "repeat") if e.getAttribute("nodeset") == RQ]
+        return len(rp) == 1 and ok(rp[0].getAttribute("jr:count"))
+    if kind == "last-saved":
+        prim = child_elements(elements(root, "instance")[0])[0]
+        svs = [e for e in elements(root, "setvalue") if e.getAttribute("ref") == RQ]
+        ls = [i for i in elements(root, "instance") if i.getAttribute("id") == "__last-saved"]
+        if len(ls) != 1 or ls[0].getAttribute("src") != "jr://instance/last-saved" or len(svs) != 1:
+            return False
+        return svs[0].getAttribute("value").strip() == "instance('__last-saved')" + absolute
+    if kind == "constraint_message":
+        v = bind[0].getAttribute("jr:constraintMsg")
+        if v != "jr:itext('" + RQ + ":jr:constraintMsg')":
+            return False
+        vals = [t for t in elements(root, "text") if t.getAttribute("id") == RQ + ":jr:constraintMsg"]
+        if len(vals) != 1:
+            return False
+        outs = elements(vals[0], "output")
+        return len(outs) == 1 and ok(outs[0].getAttribute("value"))
+    return False
+
+
+specialise(
+    "C03",
+    "b.cell-kinds",
+    c03_cells,
+    {"cell": list(range(len(CELLS_B))), "nc": [1], "nr": [0, 1], "nt": [0, 1]},
+    reach_if=lambda fx: fx["nr"] == 0 and fx["nt"] == 0,
+    timeout=400,
+    kernel=K + ("pyxform.survey:Survey.insert_output_values", "pyxform.question:MultipleChoiceQuestion.build_xml", "pyxform.section:RepeatingSection.xml_control", "pyxform.survey_element:SurveyElement.get_setvalue_node_for_dynamic_default", "pyxform.survey:Survey._generate_last_saved_instance"),
+    shims=("S1", "S2", "S4"),
+    symbolic="group/repeat kind of every section on the common, referrer and target chains (3 symbolic ints) and a symbolic digit inside the expression",
+    bounds="consumer cell kind and chain lengths (common 1, referrer 0-1, target 0-1) fixed per instance; names concrete so the real _setup_xpath_dictionary and lexer run",
+    weight=50,
+)
+specialise(
+    "C03",
+    "b.cell-kinds",
+    c03_cells,
+    {"cell": list(range(len(CELLS_B))), "nc": [0, 2], "nr": [0, 1, 2], "nt": [0, 1, 2]},
+    reach_if=lambda fx: False,
+    tiers=("thorough",),
+    timeout=900,
+    kernel=K,
+    shims=("S1", "S2", "S4"),
+    symbolic="group/repeat kind of every section on the common, referrer and target chains and a symbolic digit inside the expression",
+    bounds="consumer cell kind and chain lengths (common 0/2, referrer 0-2, target 0-2) fixed per instance",
+    weight=200,
+)
